@@ -1,12 +1,42 @@
-"""C10 - bounded stand-in tier (native/b_c10.py through props/_qb.py)."""
-from props import _qb
-LEVEL = 'exploration'
+"""C10: name-table contracts proved from the real AST (pyvc suite 'ns': policy objects and the NamespaceManager hooks) + bounded
+stand-in for the history-level statement (native/b_c10.py through props/_qb.py)."""
+from props import _qb, _pv
+LEVEL = 'other'
 PID = 'C10'
 
 
 def run(rep, tier, seed):
+    expl = ('table level (P): DefaultNamespace/EdifNamespace.no_conflict/update/remove/lookup against the abstract view '
+                       'tab(N, type, key) -- refuses iff another element owns the key (identifiers lower-cased), update/remove move exactly the '
+                       'entry of the element, every other entry of every table is unchanged; hook level (P, policy methods used through their '
+                       'contracts): NamespaceManager.add / dictionary_set refuse (ValueError) exactly for a sibling that owns the name or '
+                       'identifier or for an illegal EDIF identifier and then leave every table unchanged, otherwise record the element; '
+                       'remove / dictionary_delete / dictionary_pop never refuse and drop exactly the element\'s entry; lookup returns the entry of '
+                       'the parent\'s table.  The history-level statement (tables agree with a scan of the children after every API call, for '
+                       'hand-built, parsed and cloned netlists, policy switches included) is decided by the bounded stand-in only.')
+    failed = _pv.run_suite(rep, PID, 'ns', tier)
     _qb.run(rep, PID, tier, seed)
+    rep.explanation = expl
+    hit = set(v['key'] for v in rep.violations)
+    for fn, o in failed:
+        rep.violation(o['name'], 'obligation %s is no longer discharged (%s)%s' % (o['name'], (o.get('detail') or '')[:200],
+                      '; the bounded tier reports a failing input for this property in the same run' if hit else ''),
+                      replay={'kind': 'obligation', 'obligation': o['name'], 'function': fn, 'solver_output': o.get('detail')}, nfi=not hit)
+    rep.trusted = list(getattr(rep, 'trusted', []) or []) + ['pyvc VC generator (DESIGN.md 3), z3/cvc5',
+                   'heap-dictionary model of dict (dk/dv arrays keyed by canonical value), `lower` as an uninterpreted idempotent map on string values']
+    rep.assumptions = list(getattr(rep, 'assumptions', []) or []) + [
+        'separation of dictionary objects (distinct policy objects own distinct dictionaries) is a precondition; it is re-established by every '
+        'function under contract (preserved.sep.* obligations) and holds initially because __init__ allocates fresh dictionaries',
+        'the lexical rule for EDIF identifiers (_check_EDIF_identifier) is an uninterpreted predicate here (its regex is outside the encoding)',
+        'policy switching (dictionary_set/delete/pop of ".NS", apply_namespace, drop_namespace, is_compliant work-lists) is outside the proved part: '
+        'NamespaceManager.add is proved for a child that carries the same policy as its parent; an element\'s ".NS" names a registered policy',
+        'WeakKeyDictionary is modelled as a dictionary (no collection of dead parents)',
+        'composition of the hook contracts with the IR mutators into the history-level invariant is not discharged (bounded tier)']
 
 
 def replay(path):
+    import json
+    d = json.load(open(path)); r = d.get('replay') or {}
+    if r.get('kind') == 'obligation':
+        print('replay file names obligation %s; solver output: %s' % (r.get('obligation'), str(r.get('solver_output'))[:300])); return 0
     return _qb.replay(path, PID)
